@@ -430,6 +430,44 @@ def r6_demand_driven_seq_functions(ctx):
         ctx.ob("C06.R6", f"{CORE}::{name}::demand-driven", CORE, d.line, not problems, "; ".join(problems[:2]))
 
 
+@rule("C06.R9", floor=1)
+def r9_iterators_under_lazy_seqs_survive_a_failing_element(ctx):
+    """A lazy seq cell whose producer raised keeps its producer and runs it again on the next access
+    (C06.R2).  Where the producer is `next()` on a Python iterator shared by the cells
+    (iterator_sequence), that iterator must still be usable after the exception: an itertools
+    object keeps its position when an inner iterator raises, but a *generator* (generator
+    expression, generator function) whose frame an exception has left is finished for good --
+    the retry gets StopIteration, which is cached as the end of the sequence.  So an iterator built
+    over caller-supplied seqs (whose elements run user code) and handed to iterator_sequence is
+    not a generator.  (A generator over the collection's own immutable delegate cannot fail.)"""
+    n = 0
+    for rel in ctx.glob("src/basilisp/lang", ".py"):
+        tree = ctx.py(rel)
+        for fn in P.all_defs(tree):
+            params = {a.arg for a in fn.args.args + fn.args.kwonlyargs} - {"self", "cls"}
+            gen_fns = {f.name for f in ast.walk(fn) if isinstance(f, P.FUNC) and f is not fn and any(isinstance(y, (ast.Yield, ast.YieldFrom)) for y in ast.walk(f))}
+            for c in P.calls(fn):
+                if P.enclosing_func(c) is not fn or P.un(c.func).split(".")[-1] != "iterator_sequence" or not c.args:
+                    continue
+                arg = c.args[0]
+                if isinstance(arg, ast.Name):
+                    src = [a.value for a in ast.walk(fn) if isinstance(a, ast.Assign) and P.un(a.targets[0]) == arg.id]
+                    arg = src[-1] if src else arg
+                n += 1
+                is_gen = isinstance(arg, ast.GeneratorExp) or (isinstance(arg, ast.Call) and P.un(arg.func) in gen_fns)
+                over_params = False
+                if isinstance(arg, ast.GeneratorExp):
+                    over_params = any(P.names_read(g.iter) & params for g in arg.generators)
+                elif is_gen:
+                    over_params = any(P.names_read(a) & params for a in arg.args)
+                bad = is_gen and over_params
+                ctx.ob("C06.R9", f"{rel}::{P.qual(fn)}::iterator_sequence over {'a generator' if is_gen else 'a re-usable iterator'}", rel, c.lineno, not bad,
+                       "" if not bad else f"`{P.un(arg)[:70]}` is a generator over caller-supplied seqs: once an element producer raises inside it the generator is finished, so the cell's retry sees StopIteration and the sequence is silently cut there",
+                       witness="s = (concat [0 1 2] (map f [3 4]) [5 6]) with f failing once on 3: the second (vec s) is [0 1 2]")
+    if n == 0:
+        raise AnalysisError("no iterator_sequence call found under src/basilisp/lang")
+
+
 @rule("C06.R7", floor=1)
 def r7_seq_accessors_do_not_realize_for_impossible_indices(ctx):
     """runtime.nth on a seq walks the seq until it reaches the index.  A negative index can never
